@@ -134,6 +134,15 @@ def main():
                 nums.add(int(m.group(1).replace("_", "")) << int(m.group(2)))
             except ValueError:
                 pass
+        # products of literals (`4 * 1024 * 1024`)
+        for m in re.finditer(r"(?<![\w.])\d[\d_]*(?:\s*\*\s*\d[\d_]*)+", src):
+            try:
+                v = 1
+                for f_ in re.split(r"\s*\*\s*", m.group(0)):
+                    v *= int(f_.replace("_", ""))
+                nums.add(v)
+            except ValueError:
+                pass
         for m in re.finditer(r"(?<![\w.])(0x[0-9a-fA-F_]+|\d[\d_]*)(?:usize|u8|u16|u32|u64|i8|i16|i32|i64|isize)?\b", src):
             tok = m.group(1).replace("_", "")
             try:
@@ -144,7 +153,9 @@ def main():
         for ty, lim in (("i8", 127), ("u8", 255), ("i16", 32767), ("u16", 65535)):
             if re.search(r"\b%s\b" % ty, src):
                 nums.add(lim)
-    nums = sorted(n for n in nums if 3 <= n <= (1 << 21))
+    # up to 2^25: the harness feeds numbers above 2^17 to a few dedicated single-input clauses only
+    # ("giant" names, extensions, runs), everything else is capped where it is used
+    nums = sorted(n for n in nums if 3 <= n <= (1 << 25))
     os.makedirs(os.path.dirname(OUT), exist_ok=True)
     open(os.path.join(os.path.dirname(OUT), "nums.txt"), "w").write("\n".join(str(n) for n in nums) + "\n")
     os.makedirs(os.path.dirname(OUT), exist_ok=True)
